@@ -50,7 +50,7 @@ func main() {
 			"distinct by run and entry lengths), or (c) an archive whose handler was released into / fired at an append that was visibly in progress (file size not record-aligned or statistics file starting to grow; " +
 			"distinct by seed, attempt and entry lengths). Quiescent archives (rate bursts, final reads) are judged but counted as trivial.",
 		Assumptions: []string{
-			"the quantifier 'every write burst in every gap' is covered for the bursts {new device + first report, GCA registration + first device + report, rotation, ban by conflicting authorization, equivocating report} × 6 gaps × server states {fresh, rotated, restarted | gcaPubKey.dat absent, empty, absent with server-generated keys}; other interleavings are sampled by random concurrent writers only",
+			"the quantifier 'every write burst in every gap' is covered for the bursts {new device + first report, GCA registration + first device + report, rotation, ban by conflicting authorization, equivocating report, forged altered copy of a registered authorization, authorization of a new device while the authorization file cannot be appended to (ENOSPC via /dev/full) followed by that device's report} × 6 gaps × server states {fresh, rotated, restarted | gcaPubKey.dat absent, empty, absent with server-generated keys}; other interleavings are sampled by random concurrent writers only",
 			"a point inside a single record append (between two write calls / between two pages of one write) is not reachable by hooks: split or torn appends are only seen if a reader hits the window; the generators steer readers towards it (requests fired when allDeviceStats.dat starts to grow; the handler held in the gap in front of a file until that file's size shows an append in progress), detection stays probabilistic",
 			"an entry that ends inside a record at a multiple of 4096 bytes is what a reader sees during ONE write call on Linux/ext4 (known finding, three files); an entry that ends inside a record anywhere else needs a multi-write record and has its own key",
 			"rate oracle: client send/receive instants and the limiter's time.Now() come from one process-wide monotonic clock; only limit+1 admissions that certainly fall into less than one window are raised; wrongful 429s are not judged here (C19)",
@@ -80,7 +80,7 @@ func main() {
 		},
 		Post: func(c *ev.Check, outs []*run.Outcome) {
 			for _, k := range []string{"archives_verified", "gap.cases_200", "gap.bursts_effective", "gapreg.cases_200", "gapreg.empty_key_archives",
-				"conc.archives_with_concurrent_append", "conc.runs", "rate.decisive_bursts", "rate.staggered_on_schedule", "rate.status_200", "rate.status_429",
+				"conc.archives_with_concurrent_append", "conc.runs", "rate.decisive_bursts", "rate.staggered_on_schedule", "rate.held_on_schedule", "rate.status_200", "rate.status_429",
 				"verified.reports", "verified.authorizations", "verified.stats_records", "verified.entries", "prefix_checks_after_quiescence", "privkey_scans",
 				"hunt.archives", "statsappend.chased_requests"} {
 				c.Require(k, 1)
@@ -88,7 +88,7 @@ func main() {
 			for g := 1; g <= 6; g++ {
 				c.Require(fmt.Sprintf("gap.fired.g%d", g), 1)
 			}
-			for _, bu := range []string{"newdev", "rotation", "ban", "equivocate"} {
+			for _, bu := range []string{"newdev", "rotation", "ban", "equivocate", "forged", "faultauth"} {
 				c.Require("gap.effective."+bu, 6)
 			}
 			c.Require("gapreg.effective", 4)
@@ -137,7 +137,7 @@ func plan(tier string, seed int64) []run.Batch {
 	}
 	for rep := 0; rep < reps; rep++ {
 		for _, st := range []string{"fresh", "rotated", "restarted"} {
-			add(run.Batch{Kind: "gap", N: 24, TimeoutS: 110, Params: map[string]string{"state": st}})
+			add(run.Batch{Kind: "gap", N: 36, TimeoutS: 110, Params: map[string]string{"state": st}})
 		}
 		for _, v := range []string{"absent", "empty", "ownkeys"} {
 			add(run.Batch{Kind: "gapreg", N: 6, TimeoutS: 110, Params: map[string]string{"variant": v}})
@@ -534,6 +534,18 @@ func (f *fetcher) get(burst int) (int, []byte, error) {
 	return resp.StatusCode, body, err
 }
 
+func recs0(f *fetcher, tag int) []rec {
+	f.mu.Lock()
+	defer f.mu.Unlock()
+	var out []rec
+	for _, x := range f.recs {
+		if x.Burst == tag || x.Burst == tag+1000 {
+			out = append(out, x)
+		}
+	}
+	return out
+}
+
 // densest returns the largest number of records, among those accepted by
 // keep, that certainly fall into less than one window (max R − min S <
 // window), together with one such set.
@@ -736,11 +748,63 @@ type victim struct {
 	rep refenc.Report
 }
 
+// forgeAuth returns an altered copy of a registered authorization: same id and
+// device key, one other field changed, and a signature the GCA never made.
+func forgeAuth(a refenc.Auth, rng *rand.Rand) refenc.Auth {
+	switch rng.Intn(4) {
+	case 0:
+		a.Debt += 1 + uint64(rng.Intn(1000))
+	case 1:
+		a.Capacity += 1 + uint64(rng.Intn(1000000))
+	case 2:
+		a.Expiration += 1 + uint32(rng.Intn(1000))
+	default:
+		a.Fee += 1 + uint64(rng.Intn(1000))
+	}
+	switch rng.Intn(3) {
+	case 0: // original signature kept
+	case 1:
+		rng.Read(a.Sig[:])
+	default: // validly signed, but by a key that is not the GCA's
+		a = a.Signed(refenc.GenKey(rng).Priv)
+	}
+	return a
+}
+
+func (w *gapWorld) postForged(orig refenc.Auth, rng *rand.Rand) (int, error) {
+	st, _, err := authorize(w.Srv, forgeAuth(orig, rng))
+	return st, err
+}
+
+// faultyAuthorize submits a valid authorization for a fresh device while
+// equipment-authorizations.dat is replaced by a symlink to /dev/full, so that
+// the append fails with ENOSPC; the file is put back before it returns.
+func (w *gapWorld) faultyAuthorize() (*drv.Dev, int, error) {
+	p := filepath.Join(w.Dir, "equipment-authorizations.dat")
+	held := p + ".held"
+	w.nextID += 1 + uint32(w.rng.Intn(5))
+	k := refenc.GenKey(w.rng)
+	a := mkAuth(w.rng, w.GCA, w.nextID, k.Pub)
+	if err := os.Rename(p, held); err != nil {
+		return nil, 0, err
+	}
+	if err := os.Symlink("/dev/full", p); err != nil {
+		os.Rename(held, p)
+		return nil, 0, err
+	}
+	st, _, err := w.Authorize(a) // no retry: one request, one fault
+	os.Remove(p)
+	if rerr := os.Rename(held, p); rerr != nil {
+		return nil, st, rerr
+	}
+	return &drv.Dev{ID: a.ID, Key: k, Auth: a}, st, err
+}
+
 // runCase performs one (gap, burst) case on a registered server.
 func (w *gapWorld) runCase(state string, gap int, burst string) bool {
 	ctx := map[string]interface{}{"kind": "gap", "state": state, "gap": gap, "burst": burst}
 	var vic victim
-	if burst == "ban" || burst == "equivocate" {
+	if burst == "ban" || burst == "equivocate" || burst == "forged" {
 		d, reps, err := w.newDevice(1 + w.rng.Intn(3))
 		if err != nil || len(reps) == 0 {
 			w.r.Inconc(fmt.Sprintf("cannot prepare victim device: %v", err))
@@ -748,7 +812,7 @@ func (w *gapWorld) runCase(state string, gap int, burst string) bool {
 		}
 		vic = victim{d, reps[w.rng.Intn(len(reps))]}
 	}
-	var fired, effective, overload atomic.Bool
+	var fired, effective, overload, answered atomic.Bool
 	var note atomic.Value
 	hookFn.Store(func(g int) {
 		if g != gap || fired.Swap(true) {
@@ -774,6 +838,26 @@ func (w *gapWorld) runCase(state string, gap int, burst string) bool {
 			}
 		case "equivocate":
 			w.Inject(vic.dev.Report(vic.rep.Slot, vic.rep.Power+1).Bytes())
+		case "forged":
+			// altered copy of a registered authorization that the GCA never signed:
+			// must be refused whatever the server already knows about the device
+			st, err := w.postForged(vic.dev.Auth, w.rng)
+			w.r.Count(fmt.Sprintf("gap.forged.status_%d", st), 1)
+			answered.Store(err == nil)
+			if err != nil {
+				note.Store(err.Error())
+			}
+		case "faultauth":
+			// the authorization file cannot be appended to (ENOSPC) while a new device is
+			// authorized; whatever the answer, the device then reports
+			d, st, err := w.faultyAuthorize()
+			w.r.Count(fmt.Sprintf("gap.faultauth.status_%d", st), 1)
+			answered.Store(err == nil)
+			if err != nil {
+				note.Store(err.Error())
+			} else {
+				w.Inject(d.Report(pickSlot(w.rng, drv.Clock(), w.offset()), uint64(2+w.rng.Intn(1000))).Bytes())
+			}
 		}
 		after := fileSizes(w.Dir)
 		grew := func(i int, by int64) bool { return after[i]-before[i] == by }
@@ -786,6 +870,9 @@ func (w *gapWorld) runCase(state string, gap int, burst string) bool {
 			effective.Store(grew(2, authLen))
 		case "equivocate":
 			effective.Store(grew(1, reportLen))
+		case "forged", "faultauth":
+			// on a correct server these bursts change nothing; the case counts when the server answered
+			effective.Store(answered.Load())
 		}
 	})
 	run.Op("gap case state=%s gap=%d burst=%s clock=%d", state, gap, burst, drv.Clock())
@@ -905,7 +992,7 @@ func childGap(b run.Batch, r *ev.Result) {
 	}
 	var cases []cs
 	for g := 1; g <= 6; g++ {
-		for _, bu := range []string{"newdev", "rotation", "ban", "equivocate"} {
+		for _, bu := range []string{"newdev", "rotation", "ban", "equivocate", "forged", "faultauth"} {
 			cases = append(cases, cs{g, bu})
 		}
 	}
@@ -1272,9 +1359,14 @@ func concRun(b run.Batch, r *ev.Result, idx int) {
 						w.Authorize(a.Signed(w.GCA.Priv))
 						r.Count("conc.conflicting_authorizations", 1)
 					}
-				case p < 40: // exact duplicate
+				case p < 38: // exact duplicate
 					if d := reg.pick(rng, false); d != nil {
 						w.Authorize(d.Auth)
+					}
+				case p < 40: // forged altered copy of a registered authorization
+					if d := reg.pick(rng, false); d != nil {
+						w.Authorize(forgeAuth(d.Auth, rng))
+						r.Count("conc.forged_authorizations", 1)
 					}
 				case p < 44: // report of a device nobody authorized
 					k := refenc.GenKey(rng)
@@ -1859,6 +1951,122 @@ func childRate(b run.Batch, r *ev.Result) {
 			r.Count("rate.staggered_on_schedule", 1)
 		} else {
 			r.Count("rate.staggered_slipped", 1)
+		}
+	}
+	// Held-request choreography: request A is admitted and parked in its first
+	// gap; a window later B, C, D are served, E is refused;
+	// then A is made to fail (its file is renamed away for the moment) and F
+	// follows at once. Whatever a failing request does to the limiter, B, C, D
+	// and F within one window is one admission too many. Judged by the interval
+	// oracle only.
+	installGapHook()
+	nCh := 4
+	if b.Tier == "thorough" {
+		nCh = 8
+	}
+	if b.Variant == "race" {
+		nCh = 0 // a 60 ms window is too tight for the race build; the plain children run it
+	}
+	for ci := 0; ci < nCh; ci++ {
+		if time.Since(born) > serverLife {
+			r.Count("cut_short_server_life_limit."+b.Kind, 1)
+			break
+		}
+		tag := 2000 + ci
+		time.Sleep(window + time.Duration(10+rng.Intn(20))*time.Millisecond)
+		run.Op("rate held-request choreography %d", ci)
+		var armed atomic.Bool
+		reached, release := make(chan struct{}), make(chan struct{})
+		armed.Store(true)
+		hookFn.Store(func(g int) {
+			// the first handler to reach any gap after arming is A (nothing else is in flight)
+			if armed.CompareAndSwap(true, false) {
+				close(reached)
+				<-release
+			}
+		})
+		type resp struct {
+			st   int
+			body []byte
+			err  error
+		}
+		one := func(tag int, out chan<- resp) {
+			st, body, err := w.f.get(tag)
+			out <- resp{st, body, err}
+		}
+		aCh := make(chan resp, 1)
+		go one(3000+ci, aCh)
+		select {
+		case <-reached:
+		case <-time.After(10 * time.Second):
+			armed.Store(false)
+			close(release)
+			<-aCh
+			hookFn.Store(func(int) {})
+			r.Count("rate.held_slipped", 1)
+			continue
+		}
+		time.Sleep(window + time.Duration(5+rng.Intn(10))*time.Millisecond) // A's own admission ages out
+		bcd := make(chan resp, 3)
+		for k := 0; k < limit; k++ {
+			go one(tag, bcd)
+		}
+		var got []resp
+		for k := 0; k < limit; k++ {
+			got = append(got, <-bcd)
+		}
+		eCh := make(chan resp, 1)
+		one(tag, eCh)
+		e := <-eCh
+		tmp := filepath.Join(dir, "gcaTempPubKey.dat")
+		renamed := os.Rename(tmp, tmp+".away") == nil
+		close(release)
+		a := <-aCh
+		if renamed {
+			if err := os.Rename(tmp+".away", tmp); err != nil {
+				r.Inconc("cannot restore gcaTempPubKey.dat: " + err.Error())
+				return
+			}
+		}
+		fCh := make(chan resp, 1)
+		one(tag, fCh)
+		f := <-fCh
+		hookFn.Store(func(int) {})
+		all200 := true
+		for _, x := range append(got, f, a, e) {
+			if x.err != nil {
+				r.Count("rate.errors", 1)
+				continue
+			}
+			r.Count(fmt.Sprintf("rate.status_%d", x.st), 1)
+			if x.st == 200 {
+				infos = append(infos, w.v.verify(x.body, w.priv, map[string]interface{}{"kind": "rate-held", "choreography": ci}))
+			}
+		}
+		for _, x := range got {
+			if x.err != nil || x.st != 200 {
+				all200 = false
+			}
+		}
+		if os.Getenv("C14_DEBUG") != "" {
+			var line []string
+			for _, x := range recs0(w.f, tag) {
+				line = append(line, fmt.Sprintf("%d@%.1f-%.1f", x.Status, float64(x.S)/1e6, float64(x.R)/1e6))
+			}
+			r.Note("held %d variant=%s: A=%d %v", ci, b.Variant, a.st, line)
+		}
+		r.Count(fmt.Sprintf("rate.held.A_status_%d", a.st), 1)
+		r.Count(fmt.Sprintf("rate.held.E_status_%d", e.st), 1)
+		r.Count(fmt.Sprintf("rate.held.F_status_%d", f.st), 1)
+		w.f.mu.Lock()
+		recs := append([]rec(nil), w.f.recs...)
+		w.f.mu.Unlock()
+		// B, C, D, E, F (any status) inside one window, B..D served, A failed: had F been served, the oracle would be certain
+		m, _ := densest(recs, window, func(x rec) bool { return x.Burst == tag })
+		if all200 && a.err == nil && a.st == 500 && f.err == nil && m >= limit+2 {
+			r.Count("rate.held_on_schedule", 1)
+		} else {
+			r.Count("rate.held_slipped", 1)
 		}
 	}
 	judgeRate(w.v, w.f, "rate")
